@@ -73,6 +73,7 @@ type asyncCfg struct {
 	reuse     bool     // raw writers overwrite their buffer after every call (C12)
 	nAppender int      // appenders referenced by the logger (default 1)
 	refLevel  string   // level setting of the appender references
+	refLevels []string // per-appender level settings (C01: events at WARN ('E') and ERROR ('F') are routed by level); overrides refLevel
 	stopTwice bool
 	stopRace  bool // Stop is called while the worker is still draining (C05); otherwise the harness first lets the worker drain
 	restart   bool // after Stop the SAME logger object is started again, takes three more items and is stopped again
@@ -86,6 +87,8 @@ type asyncObs struct {
 	counter   int64
 	stopped   bool
 	returned  map[string]bool
+	levels    map[string]log.Level // level every event was submitted at
+	ranges    []log.LevelRange     // range of every appender reference
 	err       string
 	bufAfter  int
 	empty     int // zero-length raw writes submitted
@@ -120,6 +123,9 @@ func (c asyncCfg) name() string {
 	if c.refLevel != "" {
 		s += "/ref=" + c.refLevel
 	}
+	if len(c.refLevels) > 0 {
+		s += "/refs=" + strings.Join(c.refLevels, "|")
+	}
 	if c.stopRace && len(c.producers) > 0 && !c.stopTwice {
 		s += "/stop-races-drain"
 	}
@@ -131,9 +137,13 @@ func (c asyncCfg) name() string {
 
 func (c asyncCfg) run(o *asyncObs) {
 	na := c.nAppender
+	if len(c.refLevels) > 0 {
+		na = len(c.refLevels)
+	}
 	if na == 0 {
 		na = 1
 	}
+	o.levels = map[string]log.Level{}
 	var refs []*log.AppenderRef
 	for i := 0; i < na; i++ {
 		a := &recAppender{name: fmt.Sprintf("rec%d", i), tokens: -1}
@@ -144,14 +154,19 @@ func (c asyncCfg) run(o *asyncObs) {
 		a.slow = c.reuse
 		o.apps = append(o.apps, a)
 		lr := fullRange
-		if c.refLevel != "" {
+		rl := c.refLevel
+		if len(c.refLevels) > 0 {
+			rl = c.refLevels[i]
+		}
+		if rl != "" {
 			var err error
-			if lr, err = log.ParseLevelRange(c.refLevel); err != nil {
+			if lr, err = log.ParseLevelRange(rl); err != nil {
 				o.err = err.Error()
 				return
 			}
 		}
 		refs = append(refs, &log.AppenderRef{Appender: a, Level: lr})
+		o.ranges = append(o.ranges, lr)
 	}
 	l := &log.AsyncLogger{
 		LoggerBase:       log.LoggerBase{Name: "async", Level: log.LevelRange{MinLevel: log.InfoLevel, MaxLevel: log.MaxLevel}},
@@ -188,9 +203,13 @@ func (c asyncCfg) run(o *asyncObs) {
 			for s, op := range ops {
 				id := idName(idCode(p, s))
 				switch asyncOp(op) {
-				case 'E', 'D':
+				case 'E', 'D', 'F':
 					e := log.GetEvent()
 					e.Level = log.WarnLevel
+					if op == 'F' {
+						e.Level = log.ErrorLevel
+					}
+					o.levels[id] = e.Level
 					if op == 'D' {
 						e.Level = log.DebugLevel
 						o.disabled[id] = true
@@ -317,7 +336,7 @@ func asyncCheck(prop string, c asyncCfg, o *asyncObs, x *zzvrt.Exec) (string, []
 	if x.Outcome != "" {
 		cl := strings.SplitN(x.Outcome, ":", 2)[0]
 		// deadlock/livelock/panic: Stop or a log call did not return / crashed
-		for _, p := range []string{"C04", "C05", "C06", "C12"} {
+		for _, p := range []string{"C04", "C05", "C06", "C12", "C01"} {
 			add(p, "no-"+cl, x.Outcome)
 		}
 		return x.Outcome, v
@@ -350,6 +369,32 @@ func asyncCheck(prop string, c asyncCfg, o *asyncObs, x *zzvrt.Exec) (string, []
 			}
 			seen[id]++
 			delivered = append(delivered, id)
+		}
+		// C01: an event reaches exactly the references whose range contains the level it was logged at
+		for _, it := range a.items {
+			if c.layout && strings.HasPrefix(it, "W:[") {
+				// formatted by the logger-level layout: "[LEVEL][time][file:line] tag||id=<code>"
+				if j, k := strings.LastIndex(it, "id="), strings.IndexByte(it, ']'); j >= 0 && k > 3 {
+					var code int
+					fmt.Sscanf(it[j+3:], "%d", &code)
+					it = "E:" + idName(code) + "@" + it[3:k]
+				}
+			}
+			if i := strings.IndexByte(it, '@'); i >= 0 && strings.HasPrefix(it, "E:") {
+				id, lv := it[2:i], it[i+1:]
+				if want, ok := o.levels[id]; ok && want.Name() != lv {
+					add("C01", "level-changed", fmt.Sprintf("appender %d: event %s logged at %s arrived as %s", ai, id, want.Name(), lv))
+				} else if ok && !o.ranges[ai].Enable(want) {
+					add("C01", "delivered-outside-range", fmt.Sprintf("appender %d (range %v) received event %s of level %s", ai, o.ranges[ai], id, lv))
+				}
+			}
+		}
+		if len(c.refLevels) > 0 && c.policy == log.BufferFullPolicyBlock {
+			for id, lv := range o.levels {
+				if o.submitted["E:"+id] && o.ranges[ai].Enable(lv) && seen["E:"+id] != 1 {
+					add("C01", "not-delivered-once", fmt.Sprintf("appender %d (range %v): event %s of level %s delivered %d times (Block policy: nothing is discarded)", ai, o.ranges[ai], id, lv.Name(), seen["E:"+id]))
+				}
+			}
 		}
 		for id, n := range seen {
 			if n > 1 {
@@ -514,6 +559,27 @@ func init() {
 		}
 		reg("C05", asyncCfg{policy: pol, prefill: 2, stopRace: true, producers: []string{"ZWE"}}, "qt", 2, 3)
 		reg("C05", asyncCfg{policy: pol, prefill: 100, gate: "helper", stopRace: true, producers: []string{"ZW"}}, "qt", 2, 3)
+	}
+	// single-kind histories: a life that sees ONLY raw writes, only events, only disabled events (+ raw writes) or only
+	// empty writes before Stop (whatever delivers the items must not depend on some other kind having been submitted)
+	for _, pol := range pols {
+		for _, prop := range []string{"C04", "C06", "C12"} {
+			for _, prods := range [][]string{{"WW"}, {"W", "W"}, {"EE"}, {"DW"}, {"DD", "W"}, {"ZZ"}, {"ZW"}} {
+				reg(prop, asyncCfg{policy: pol, prefill: 0, producers: prods}, "qt", 2, 3)
+			}
+			reg(prop, asyncCfg{policy: pol, prefill: 2, producers: []string{"W"}}, "qt", 2, 3)
+			reg(prop, asyncCfg{policy: pol, prefill: 99, gate: "tokens5", producers: []string{"WW", "W"}}, "qt", 2, 3)
+			reg(prop, asyncCfg{policy: pol, prefill: 0, producers: []string{"WW"}, restart: true}, "qt", 2, 3)
+			reg(prop, asyncCfg{policy: pol, prefill: 3, stopRace: true, producers: []string{"W"}}, "qt", 2, 3)
+		}
+	}
+	// C01 through the asynchronous path: events of two levels, two references with disjoint ranges, overflow in between
+	for _, pol := range pols {
+		rl := []string{"INFO~ERROR", "ERROR"}
+		reg("C01", asyncCfg{policy: pol, prefill: 0, refLevels: rl, producers: []string{"EF", "FE"}}, "qt", 2, 3)
+		reg("C01", asyncCfg{policy: pol, prefill: 99, gate: "tokens5", refLevels: rl, producers: []string{"EF", "FE"}}, "qt", 2, 3)
+		reg("C01", asyncCfg{policy: pol, prefill: 100, gate: "tokens5", refLevels: rl, producers: []string{"EFE", "F"}}, "qt", 2, 3)
+		reg("C01", asyncCfg{policy: pol, prefill: 98, gate: "tokens5", layout: true, refLevels: rl, producers: []string{"EF", "FE"}}, "qt", 2, 3)
 	}
 	// a second life of the same logger object (Start, Stop, Start, Stop): conservation and order over both lives
 	for _, pol := range pols {
